@@ -72,6 +72,23 @@ func driveC08(p *Pool, r *evid.Run) {
 		plans = []plan{{"small", "small-dirty", 3}, {"mid", "mid-dirty", 2}, {"v2", "empty", 2}}
 	}
 	bounds := map[string]int{}
+	// the zero-deviation outcomes of different base policies and capacities must agree too
+	ref := map[string]string{}
+	ex := func(scns []Scn, bound int) []*JobRes {
+		res := exploreAll(p, r, "C08", scns, bound, 0)
+		for i, x := range res {
+			if x == nil || x.Err != "" || x.RootOut == "" {
+				continue
+			}
+			k := scns[i].Src + ">" + scns[i].Dst
+			if want, ok := ref[k]; !ok {
+				ref[k] = x.RootOut
+			} else if want != x.RootOut {
+				r.Violate("outcome-differs", fmt.Sprintf("%s: outcome differs from the one under another base schedule:\n got  %s\n want %s", scns[i], x.RootOut, want), map[string]any{"scn": scns[i], "choices": []int{}})
+			}
+		}
+		return res
+	}
 	for _, pl := range plans {
 		var scns, deep []Scn
 		for _, pol := range []string{"run", "rr", "recv", "send"} {
@@ -92,13 +109,33 @@ func driveC08(p *Pool, r *evid.Run) {
 				break
 			}
 			if b < pl.bound || pl.bound == 1 {
-				exploreAll(p, r, "C08", scns, b, 0)
+				ex(scns, b)
 			} else {
-				exploreAll(p, r, "C08", deep, b, 0)
+				ex(deep, b)
 			}
 			done = b
 		}
 		bounds[pl.src] = done
+	}
+	// one spawn site at a time arbitrarily slow: the goroutines started there run only when nothing else can
+	// (a descheduled walker, receive loop, worker or writer); roles are read off a probe execution
+	for _, pl := range plans {
+		probe := ex([]Scn{{Kind: "xfer", Src: pl.src, Dst: pl.dst, Cap: 64, Policy: "rr", Notify: true, SelectAlts: true, Progress: true}}, 0)
+		if len(probe) == 0 || probe[0] == nil {
+			continue
+		}
+		var slow []Scn
+		for _, role := range probe[0].Roles {
+			for _, cp := range []int{1, 64} {
+				slow = append(slow, Scn{Kind: "xfer", Src: pl.src, Dst: pl.dst, Cap: cp, Policy: "slow:" + role, Notify: true, SelectAlts: true, Progress: true})
+			}
+		}
+		b := 1
+		if r.Tier == "thorough" {
+			b = 2
+		}
+		ex(slow, b)
+		r.Set("slow_roles_"+pl.src, probe[0].Roles)
 	}
 	// 400 files at bound 0 around every policy: every internal queue fills up
 	var big []Scn
@@ -107,7 +144,7 @@ func driveC08(p *Pool, r *evid.Run) {
 			big = append(big, Scn{Kind: "xfer", Src: "fan400", Dst: "empty", Cap: cp, Policy: pol, Notify: true})
 		}
 	}
-	exploreAll(p, r, "C08", big, 0, 0)
+	ex(big, 0)
 	bounds["fan400"] = 0
 	r.Set("completed_bound", bounds)
 	auxRacePass(r)
@@ -139,6 +176,11 @@ func auxRacePass(r *evid.Run) {
 			rep = rep[:1800]
 		}
 		r.Violate("data-race", "the race detector reports a data race in a free-running transfer (auxiliary pass):\n"+rep, map[string]any{"report": rep})
+		r.Set("aux_race_runs", n)
+		return
+	}
+	if i := strings.Index(s, "transfer failed:"); i >= 0 {
+		r.Violate("free-run-transfer-failed", "a fault-free free-running transfer failed (auxiliary pass, schedule chosen by the Go runtime): "+firstLines(s[i:], 2), map[string]any{"output": firstLines(s[i:], 4)})
 		r.Set("aux_race_runs", n)
 		return
 	}
